@@ -656,7 +656,7 @@ func TestVerifC20(t *testing.T) {
 	}
 	nk, nv, maxN, ordersUpTo := 7, 2, 3, 6
 	if r.Thorough() {
-		nk, nv, maxN, ordersUpTo = 9, 3, 4, 8
+		nk, nv, maxN, ordersUpTo = 9, 3, 5, 8
 	}
 	maps := c20Enumerate(c20AllKeys[:nk], c20AllVals[:nv], maxN)
 	r.Rule(fmt.Sprintf("sources: every map with 1..%d entries over %d keys (hex %x) x %d values (40-byte -> hashed nodes, 1-byte -> embedded nodes) = %d tries, plus 2 world states (EOA + contract account with nested storage trie, contract code in the bytes-by-hash bucket, validator list). Per source an explicit-state BFS to the fixpoint: state = set of delivered items + outstanding requests reported by the real builder; events = deliver item i of the source (requested / delivered before / genuine but not requested yet) and %d forged payloads; every transition replayed on a fresh real builder (layerDB over a recording MapDB). Sources with <= %d items: every complete delivery order enumerated without de-duplication. Non-trivial = distinct (source, state)",
